@@ -19,6 +19,7 @@
 #include <ImathColorAlgo.h>
 #include <algorithm>
 #include <atomic>
+#include <cstdint>
 #include <limits>
 
 using namespace vf;
@@ -152,6 +153,104 @@ template <class T> void fp_color (const std::string& tn)
     R ().add ("color." + tn + ".inverse-undefined.generic", t.generic);
     R ().add ("states", 2 * t.n); R ().add ("evaluations", 2 * t.n); R ().add ("transitions", t.tr);
     R ().stage_done ("rgb and hsv over {0,1/" + std::to_string (G) + ",..,1}^3: model agreement, both round trips, Color4 overloads x 6 alphas");
+}
+
+// ---- the unit-cube grid scaled by exact powers of two: dark colours down to the subnormal range ---------------
+// Statement: "rgb2hsv and hsv2rgb are mutually inverse on the unit cube". The unit cube contains colours of every
+// magnitude: hue and saturation are ratios of channel differences and hence invariant under rgb -> c*rgb (c > 0), value
+// scales with c; conversely hsv2rgb is linear in v. So for every grid colour (i,j,k)/8 and every scale 2^-n that keeps
+// the channels representable (float: n <= 140, i.e. channels >= 2^-143; double: n <= 1060) the DEFINITION gives the same
+// hue and saturation as for the unscaled colour and 2^-n times the value. A conversion that treats small magnitudes as
+// "numerically black" (thresholds such as max > epsilon) differs from the definition by a full unit of saturation.
+// Oracle: the same long-double model as above, evaluated on the scaled colour (long double has 15 exponent bits: no
+// underflow anywhere near these magnitudes); hue and saturation within the SAME absolute tolerance 16 eps(T) as the
+// unscaled grid (they are scale-free quantities <= 1; the error analysis at the top of the file is in relative terms
+// of the channel magnitudes and nothing in it underflows: the scaled channels and their differences are exactly
+// representable, i*2^-(n+3), and every quotient is scale-free), value and the rgb channels within 16 eps(T) * 2^-n
+// (relative to the scale) plus one denorm_min(T) for the final rounding of a result into T's subnormal range.
+template <class T> void fp_color_scaled (const std::string& tn)
+{
+    if (!R ().stage ("color-scaled-" + tn)) return;
+    typedef IM::Vec3<T>   V3;
+    typedef IM::Color4<T> C4;
+    typedef std::numeric_limits<T> L;
+    const LD  TOL = 16 * (LD) L::epsilon (), DEN = (LD) L::denorm_min (), DEPS = (LD) std::numeric_limits<double>::epsilon ();
+    const int NMAX = sizeof (T) == sizeof (float) ? 140 : 1060, G = 8;
+    const T   alphas[] = {T (0.3), T (-2)};
+    long long n = 0, tr = 0, c_dark = 0, c_sub = 0, c_grey = 0, c_black = 0, c_sat = 0, c_negh = 0;
+    const std::string SFX = ".scaled-by-2^-n";
+    for (int e = 1; e <= NMAX; ++e)
+    {
+        const LD scale = ldexpl (1.0L, -e);
+        for (int i = 0; i <= G; ++i)
+            for (int j = 0; j <= G; ++j)
+                for (int k = 0; k <= G; ++k)
+                {
+                    const T a = std::ldexp (T (i) / G, -e), b = std::ldexp (T (j) / G, -e), c = std::ldexp (T (k) / G, -e); // exact
+                    auto in = [&] () { return std::string (Msg () << tn << " 2^-" << e << " * (" << i << " " << j << " " << k << ")/8 = " << a << " " << b << " " << c); };
+                    ++n;
+                    const int mxi = std::max (i, std::max (j, k));
+                    if (mxi > 0 && (LD) mxi / G * scale <= DEPS) ++c_dark;
+                    if ((i && a < L::min ()) || (j && b < L::min ()) || (k && c < L::min ())) ++c_sub;
+                    // ---------- (a,b,c) as rgb
+                    {
+                        V3  hsv = IM::rgb2hsv (V3 (a, b, c));
+                        Tri w   = model_rgb2hsv (a, b, c);
+                        ++tr;
+                        const bool grey = (i == j && j == k);
+                        if (grey) ++c_grey;
+                        if (mxi == 0) ++c_black;
+                        if (!grey && std::min (i, std::min (j, k)) == 0) ++c_sat;
+                        if (!grey && i == mxi && j < k) ++c_negh;
+                        if (!(hsv.x >= 0 && hsv.x <= 1)) R ().fail ("rgb2hsv.hue-range" + SFX, in (), "[0,1]", Msg () << hsv.x);
+                        if (!(absl ((LD) hsv.z - w.c) <= TOL * w.c + DEN)) R ().fail ("rgb2hsv.value" + SFX, in (), fmt (w.c), Msg () << hsv.z);
+                        if (w.c > 0 && !(absl ((LD) hsv.y - w.b) <= TOL)) R ().fail ("rgb2hsv.saturation" + SFX, in (), fmt (w.b), Msg () << hsv.y);
+                        if (w.c > 0 && w.b > 0 && !(huedist (hsv.x, w.a) <= TOL)) R ().fail ("rgb2hsv.hue" + SFX, in (), fmt (w.a), Msg () << hsv.x);
+                        if (grey && (hsv.y != 0)) R ().fail ("rgb2hsv.grey-axis" + SFX, in (), "saturation 0", Msg () << hsv.y);
+                        V3 back = IM::hsv2rgb (hsv);
+                        ++tr;
+                        LD er = std::max (absl ((LD) back.x - a), std::max (absl ((LD) back.y - b), absl ((LD) back.z - c)));
+                        if (!(er <= TOL * scale + DEN)) R ().fail ("hsv2rgb(rgb2hsv(rgb))" + SFX, in (), in (), Msg () << back.x << " " << back.y << " " << back.z);
+                        for (T al : alphas)
+                        {
+                            C4 h4 = IM::rgb2hsv (C4 (a, b, c, al));
+                            ++tr;
+                            if (!ex::same (h4.r, hsv.x) || !ex::same (h4.g, hsv.y) || !ex::same (h4.b, hsv.z))
+                                R ().fail ("rgb2hsv.Color4-vs-Vec3" + SFX, in (), Msg () << hsv.x << " " << hsv.y << " " << hsv.z, Msg () << h4.r << " " << h4.g << " " << h4.b);
+                            if (!ex::same (h4.a, al)) R ().fail ("rgb2hsv.Color4.alpha" + SFX, in () + " alpha " + fmt (al), Msg () << al, Msg () << h4.a);
+                        }
+                    }
+                    // ---------- (i/8, j/8, c) as hsv: hue and saturation unscaled, value scaled
+                    {
+                        const T h = T (i) / G, s = T (j) / G;
+                        V3  rgb = IM::hsv2rgb (V3 (h, s, c));
+                        Tri w   = model_hsv2rgb (h, s, c);
+                        ++tr;
+                        LD er = std::max (absl ((LD) rgb.x - w.a), std::max (absl ((LD) rgb.y - w.b), absl ((LD) rgb.z - w.c)));
+                        auto inh = [&] () { return std::string (Msg () << tn << " hsv " << h << " " << s << " " << c << " (value " << k << "/8 * 2^-" << e << ")"); };
+                        if (!(er <= TOL * scale + DEN)) R ().fail ("hsv2rgb" + SFX, inh (), Msg () << w.a << " " << w.b << " " << w.c, Msg () << rgb.x << " " << rgb.y << " " << rgb.z);
+                        V3 back = IM::rgb2hsv (rgb);
+                        ++tr;
+                        if (!(absl ((LD) back.z - c) <= TOL * scale + DEN)) R ().fail ("rgb2hsv(hsv2rgb(hsv)).value" + SFX, inh (), inh (), Msg () << back.x << " " << back.y << " " << back.z);
+                        if (k > 0 && !(absl ((LD) back.y - s) <= TOL)) R ().fail ("rgb2hsv(hsv2rgb(hsv)).saturation" + SFX, inh (), inh (), Msg () << back.x << " " << back.y << " " << back.z);
+                        if (k > 0 && j > 0 && !(huedist (back.x, h) <= TOL)) R ().fail ("rgb2hsv(hsv2rgb(hsv)).hue" + SFX, inh (), inh (), Msg () << back.x << " " << back.y << " " << back.z);
+                        for (T al : alphas)
+                        {
+                            C4 r4 = IM::hsv2rgb (C4 (h, s, c, al));
+                            ++tr;
+                            if (!ex::same (r4.r, rgb.x) || !ex::same (r4.g, rgb.y) || !ex::same (r4.b, rgb.z))
+                                R ().fail ("hsv2rgb.Color4-vs-Vec3" + SFX, inh (), Msg () << rgb.x << " " << rgb.y << " " << rgb.z, Msg () << r4.r << " " << r4.g << " " << r4.b);
+                            if (!ex::same (r4.a, al)) R ().fail ("hsv2rgb.Color4.alpha" + SFX, inh () + " alpha " + fmt (al), Msg () << al, Msg () << r4.a);
+                        }
+                    }
+                }
+    }
+    R ().cls ("color-scaled." + tn + ".largest-channel<=DBL_EPSILON(non-black)", c_dark);
+    R ().cls ("color-scaled." + tn + ".subnormal-channel", c_sub);
+    R ().cls ("color-scaled." + tn + ".grey-axis", c_grey); R ().cls ("color-scaled." + tn + ".black", c_black);
+    R ().cls ("color-scaled." + tn + ".smallest-channel-0(saturation 1)", c_sat); R ().cls ("color-scaled." + tn + ".negative-hue-wraps", c_negh);
+    R ().add ("states", 2 * n); R ().add ("evaluations", 2 * n); R ().add ("transitions", tr);
+    R ().stage_done ("{0,1/8,..,1}^3 x every scale 2^-n, n = 1.." + std::to_string (NMAX) + " (channels exact down to the subnormal range): rgb2hsv hue/saturation as for the unscaled colour, value and hsv2rgb channels scaled; both round trips; Color4 overloads x 2 alphas");
 }
 
 // ---- integer element types --------------------------------------------------------------------------
@@ -438,6 +537,111 @@ template <class T> void int_exact (const std::string& tn)
                      "components that are 0, max or an input channel by construction returned EXACTLY, Vec3 and Color4 overloads");
 }
 
+// ---- wide integer element types, SMALL channel values ----------------------------------------------------
+// Statement: "integer element types scale by their maximum": a channel n stands for n/max. For the 32- and 64-bit
+// element types (Vec3<unsigned int>, Vec3<int64_t> = V3i64, Color4 likewise) ordinary small counts n are tiny fractions
+// of the unit interval (n/2^63 <= 2^-52 for n <= 2048) - still ordinary, non-black colours whose hue and saturation are
+// those of (r,g,b)/max by the definition. The floor(k*max/8) grids of the other integer stages never go below max/8,
+// and their window d = 1e-4*max is useless for counts this small, so this stage fixes the window from the error
+// analysis instead: the conversions work in double; the unit-scale quantities (hue, saturation) carry at most 16
+// eps(double) of error (top of this file), scaled by max that is d1 = 16 eps max counts; a quantity that is itself a
+// small count c (value; the rgb channels of hsv2rgb with a small v) carries 16 eps c counts, far below one count. The
+// final conversion to T may dispose of the fraction by truncation or rounding: result in (w - 1 - d, w + d].
+//   rgb2hsv(r,g,b):  value in (mx-1-d, mx+d], d = 16 eps mx;  saturation, hue in (w-1-d1, w+d1], w = model*max
+//   hsv2rgb(rgb2hsv(r,g,b)): every channel n comes back in (n-2-dr, n+dr], dr = mx (7/max + 112 eps): the stored value may be
+//        one count low (one more count in every channel), hue and saturation are stored to within one count of max,
+//        i.e. 1/max + 16 eps of the unit interval, and enter the channels as val*(1 - sat*g(hue)), |dg/dhue| <= 6;
+//   hsv2rgb(h,s,v) with a small v: channels in (w-1-d, w+d], d = 16 eps max(v,1).
+// int64_t: double (max) is 2^63, so a result component equal to 1 (saturation of a colour whose smallest channel is 0)
+// is not representable in T after scaling - those colours are counted as outside the judged domain and not called.
+template <class T> void int_small (const std::string& tn)
+{
+    if (!R ().stage ("color-small-" + tn)) return;
+    typedef IM::Vec3<T>   V3;
+    typedef IM::Color4<T> C4;
+    const LD  MX = (LD) std::numeric_limits<T>::max (), EPS = (LD) std::numeric_limits<double>::epsilon ();
+    const bool wide = sizeof (T) == 8;
+    std::vector<long long> K = {0, 1, 2, 3, 7, 8, 100, 255, 256, 600, 1000, 1200, 2040, 2047, 2048, 2049, 4095, 65536, (1ll << 20) + 1, 1ll << 31};
+    if (wide) K.push_back ((1ll << 40) + 3);
+    long long n = 0, tr = 0, c_tiny = 0, c_grey = 0, c_black = 0, c_negh = 0, c_sat1 = 0, x_unrep = 0, c_hsv = 0;
+    auto win = [] (LD got, LD w, LD d, LD below) { return got > w - below - d && got <= w + d; };
+    auto s3 = [&] (long long a, long long b, long long c) { return tn + " " + fmt (a) + " " + fmt (b) + " " + fmt (c); };
+    const std::string RS = "rgb2hsv<" + tn + ">.scaled.small-channels", RS4 = "rgb2hsv<Color4<" + tn + ">>.scaled.small-channels";
+    const std::string HS = "hsv2rgb<" + tn + ">.scaled.small-value", HS4 = "hsv2rgb<Color4<" + tn + ">>.scaled.small-value";
+    for (long long r : K)
+        for (long long g : K)
+            for (long long b : K)
+            {
+                const long long mx = std::max (r, std::max (g, b)), mn = std::min (r, std::min (g, b));
+                ++n;
+                if (wide && mn == 0 && mx > 0) { ++x_unrep; continue; } // saturation 1 -> 2^63: not representable in int64_t
+                const T   al = (T) ((r * 7 + g * 13 + b * 29 + 5) % 251);
+                const V3  hv = IM::rgb2hsv (V3 ((T) r, (T) g, (T) b));
+                const C4  hc = IM::rgb2hsv (C4 ((T) r, (T) g, (T) b, al));
+                const Tri wh = model_rgb2hsv (r / MX, g / MX, b / MX);
+                tr += 2;
+                if (mx > 0 && mx / MX <= EPS) ++c_tiny;
+                if (mx == mn) { if (mx) ++c_grey; else ++c_black; }
+                else if (mn == 0) ++c_sat1;
+                if (mx != mn && r == mx && g < b) ++c_negh;
+                const LD d1 = 16 * EPS * MX, dv = 16 * EPS * mx;
+                const LD got3[3] = {(LD) hv.x, (LD) hv.y, (LD) hv.z}, got4[3] = {(LD) hc.r, (LD) hc.g, (LD) hc.b};
+                for (int o = 0; o < 2; ++o)
+                {
+                    const LD*          got  = o ? got4 : got3;
+                    const std::string& site = o ? RS4 : RS;
+                    if (!win (got[2], mx, dv, 1)) R ().fail (site, s3 (r, g, b) + " value", fmt (mx), fmt ((long long) got[2]));
+                    if (!win (got[1], wh.b * MX, d1, 1)) R ().fail (site, s3 (r, g, b) + " saturation", fmt ((double) (wh.b * MX)), fmt ((long long) got[1]));
+                    if (wh.b > 0 && !win (got[0], wh.a * MX, d1, 1)) R ().fail (site, s3 (r, g, b) + " hue", fmt ((double) (wh.a * MX)), fmt ((long long) got[0]));
+                }
+                if (hc.a != al) R ().fail ("rgb2hsv<Color4<" + tn + ">>.alpha", s3 (r, g, b) + " alpha " + fmt ((long long) al), fmt ((long long) al), fmt ((long long) hc.a));
+                // round trip
+                const V3 bv = IM::hsv2rgb (hv);
+                const C4 bc = IM::hsv2rgb (hc);
+                tr += 2;
+                const LD dr = mx * (7 / MX + 112 * EPS);
+                const long long in3[3] = {r, g, b};
+                const LD b3[3] = {(LD) bv.x, (LD) bv.y, (LD) bv.z}, b4[3] = {(LD) bc.r, (LD) bc.g, (LD) bc.b};
+                for (int ch = 0; ch < 3; ++ch)
+                {
+                    if (!win (b3[ch], in3[ch], dr, 2)) R ().fail ("hsv2rgb(rgb2hsv(rgb))<" + tn + ">.small-channels", s3 (r, g, b), s3 (r, g, b), fmt ((long long) b3[0]) + " " + fmt ((long long) b3[1]) + " " + fmt ((long long) b3[2]));
+                    if (!win (b4[ch], in3[ch], dr, 2)) R ().fail ("hsv2rgb(rgb2hsv(rgb))<Color4<" + tn + ">>.small-channels", s3 (r, g, b), s3 (r, g, b), fmt ((long long) b4[0]) + " " + fmt ((long long) b4[1]) + " " + fmt ((long long) b4[2]));
+                }
+                if (bc.a != al) R ().fail ("hsv2rgb<Color4<" + tn + ">>.alpha", s3 (r, g, b) + " alpha " + fmt ((long long) al), fmt ((long long) al), fmt ((long long) bc.a));
+            }
+    // hsv2rgb of a small value under every kind of hue / saturation
+    const long long M = (long long) std::numeric_limits<T>::max ();
+    std::vector<long long> H = {0, M, 1, M - 1, M / 3, 2 * (M / 3), M / 2}, S = {0, 1, M / 4, M / 2, M - 1, M};
+    for (int j = 0; j < 6; ++j) H.push_back ((long long) ((2 * j + 1) * (MX / 12)));
+    for (long long h : H)
+        for (long long s : S)
+            for (long long v : K)
+            {
+                ++n; ++c_hsv; tr += 2;
+                const T   al = (T) ((v * 7 + 3) % 251);
+                const V3  rv = IM::hsv2rgb (V3 ((T) h, (T) s, (T) v));
+                const C4  rc = IM::hsv2rgb (C4 ((T) h, (T) s, (T) v, al));
+                const Tri w  = model_hsv2rgb (h / MX, s / MX, v / MX);
+                const LD  d  = 16 * EPS * std::max<LD> (v, 1);
+                const LD  w3[3] = {w.a * MX, w.b * MX, w.c * MX}, g3[3] = {(LD) rv.x, (LD) rv.y, (LD) rv.z}, g4[3] = {(LD) rc.r, (LD) rc.g, (LD) rc.b};
+                for (int ch = 0; ch < 3; ++ch)
+                {
+                    if (!win (g3[ch], w3[ch], d, 1)) R ().fail (HS, s3 (h, s, v), fmt ((double) w3[0]) + " " + fmt ((double) w3[1]) + " " + fmt ((double) w3[2]), fmt ((long long) g3[0]) + " " + fmt ((long long) g3[1]) + " " + fmt ((long long) g3[2]));
+                    if (!win (g4[ch], w3[ch], d, 1)) R ().fail (HS4, s3 (h, s, v), fmt ((double) w3[0]) + " " + fmt ((double) w3[1]) + " " + fmt ((double) w3[2]), fmt ((long long) g4[0]) + " " + fmt ((long long) g4[1]) + " " + fmt ((long long) g4[2]));
+                }
+                if (rc.a != al) R ().fail ("hsv2rgb<Color4<" + tn + ">>.alpha", s3 (h, s, v) + " alpha " + fmt ((long long) al), fmt ((long long) al), fmt ((long long) rc.a));
+            }
+    if (wide) R ().cls ("color-small." + tn + ".largest-channel/max<=DBL_EPSILON(non-black)", c_tiny);
+    R ().cls ("color-small." + tn + ".grey-axis", c_grey); R ().cls ("color-small." + tn + ".black", c_black);
+    R ().cls ("color-small." + tn + ".negative-hue-wraps", c_negh); R ().cls ("color-small." + tn + ".hsv-small-value", c_hsv);
+    if (!wide) R ().cls ("color-small." + tn + ".smallest-channel-0(saturation max)", c_sat1);
+    R ().add ("color-small." + tn + ".saturation-1-not-representable-after-scaling (outside the judged domain)", x_unrep);
+    R ().add ("states", n); R ().add ("evaluations", n); R ().add ("transitions", tr);
+    R ().stage_done (std::to_string (K.size ()) + "^3 rgb triples of small counts (0..2049, 4095, 2^16, 2^20+1, 2^31" + std::string (wide ? ", 2^40+3" : "") +
+                     "): rgb2hsv against the model scaled by max within the a-priori double-rounding window, round trip, " + std::to_string (H.size () * S.size ()) +
+                     " (hue, saturation) pairs x small values through hsv2rgb; Vec3 and Color4 overloads");
+}
+
 // ---- ALL 2^24 unsigned-char triples --------------------------------------------------------------------
 // (1) Vec3<unsigned char> against the long-double model scaled by 255 and truncated (the same oracle as the 9^3 grid:
 //     covers hues that are not multiples of 1/8, the neighbourhood of every sector boundary, every saturation);
@@ -586,6 +790,10 @@ void c17_color_stages ()
 {
     fp_color<double> ("double");
     fp_color<float> ("float");
+    fp_color_scaled<double> ("double");
+    fp_color_scaled<float> ("float");
+    int_small<int64_t> ("int64_t");
+    int_small<unsigned int> ("unsigned int");
     int_color<unsigned char> ("unsigned char", true);
     int_color<short> ("short", false);
     int_color4<unsigned char> ("unsigned char");
